@@ -264,7 +264,8 @@ def run(scenario, params, tape, detail=False):
                 confirm(r, tag, aps, "OK", delay=r["cdelay"] + 0.01)
                 confirm(r, tag, aps, "DELIVERY_FAILED", delay=r["cdelay"] + 0.02)
             elif c == "wrong_tag":
-                confirm(r, (tag + 1) % 256, aps, "OK", delay=r["cdelay"])
+                # (v14 carries a 16-bit tag in the confirmation: a tag that differs only in its high byte is another tag too)
+                confirm(r, (tag + 0x0100) if (V >= 14 and r["i"] % 2 == 0) else (tag + 1) % 256, aps, "OK", delay=r["cdelay"])
             elif c == "wrong_dest":
                 confirm(r, tag, aps, "OK", dest=r["dest"] ^ 0x4000, delay=r["cdelay"])
             elif c == "before_response":
